@@ -598,7 +598,9 @@ def build_PhaseField(case, mesh):
             psiP.append(0.5 * np.einsum("epij,epij->ep", _iso_stress(e3, dim, E, nu, False), e3).mean(axis=1))
         else:
             pP, _ = pfm.Calc_psi_e_pg(simu._Calc_Epsilon_e_pg(u, g, MatrixType.mass))
-            psiP.append(np.asarray(pP).mean(axis=1))
+            # default History solver: the reported field is the history max(psi+, previous) with a zero initial history
+            # (splits with cross terms can give psi+ < 0 at a Gauss point)
+            psiP.append(np.maximum(np.asarray(pP), 0.0).mean(axis=1))
     psiP = np.concatenate(psiP)
     table["psiP"] = Spec("elem", psiP)
     Ku = simu.Get_K_C_M_F(PT.elastic)[0]
